@@ -42,21 +42,25 @@ BOUNDS = {
                   "(plus pad > domain for same-rule-on-both-sides and three mixed combinations)",
                   boundary_modes="pairwise covering of {symmetric, edge, wrap, constant}^4 per mesh",
                   radius_constant=["0.5", "1", "1.5", "2", "2.5", "3.6"], radius_symbolic="[0.3, 3.6]",
-                  units="relative; absolute with element size (1/2, 2, 1)", overrides="8 index-set shapes",
-                  field="symbolic", kernel="symbolic", pad_values="symbolic"),
+                  units="relative; absolute with element size (1/2, 2, 1): radii 1.5, 2.5, symbolic [0.3, 3.6] on 3x2",
+                  overrides="9 index-set shapes", field="symbolic", kernel="symbolic", pad_values="symbolic"),
     "thorough": dict(meshes=["1x1", "1x3", "3x1", "2x2", "3x2", "4x3", "2x2x2", "3x2x2"],
                      kernels="odd shapes up to 5x5 / 3x3x3 with pad <= domain (plus pad > domain as in quick)",
                      boundary_modes="all 256 combinations on 3x2 and 2x2 (3x3 kernel), pairwise covering elsewhere "
                                     "(6 factors in 3D)",
                      radius_constant=["0.3", "0.5", "1", "1.5", "2", "2.5", "3", "3.6", "4.5"],
-                     radius_symbolic="[0.3, max(nx,ny,nz)+1.2]", units="relative; absolute with element size (1/2, 2, 1)",
-                     overrides="8 index-set shapes", field="symbolic", kernel="symbolic", pad_values="symbolic"),
+                     radius_symbolic="[0.3, max(nx,ny,nz)+1.2]",
+                     units="relative; absolute with element size (1/2, 2, 1): radii 0.4, 1.5, 2.5 (2D), 1.5 (3D), symbolic "
+                           "[0.3, 2.6] on 3x2",
+                     overrides="9 index-set shapes", field="symbolic", kernel="symbolic", pad_values="symbolic"),
 }
 OUTSIDE = ["meshes / kernels beyond the grid", "IEEE rounding (exact real arithmetic)",
            "symbolic radii within 1e-10 element sizes above a multiple of the element size: FilterConv's rounding guard "
            "int((r - 1e-10 h)/h) drops cone weights < 1e-10 h there (deviation of that order from the definition)",
            "radius kernels beyond |offset| <= n per axis: FilterConv truncates its radius kernel to 2n+1 entries per axis; "
            "the reference uses the same offset box (taken as the convention of FilterConv)",
+           "absolute units with radii beyond 2.5 (3D: 1.5): every non-square squared distance is an algebraic constant and "
+           "the queries stop terminating in the budget (measured: 2x2, r = 4.5 needs 131 s, 3x2 > 600 s)",
            "FilterConv._sensitivity (C01), DensityFilter with repeated / unsorted nonpadding indices",
            "override index sets other than the enumerated ones"]
 ASSUMPTIONS = ["float64 arithmetic modelled as exact real arithmetic",
